@@ -7,7 +7,7 @@ meaning-preserving re-layouts (blanks, newlines, form feeds, comments at token b
 words) must compile to byte-identical scripts for every shell."""
 import re
 
-from .. import build, impl, planted, report
+from .. import build, coqcheck, impl, planted, report
 
 SHELLS = planted.SHELLS
 POOL = ['FILE', 'OUTPUT', 'LOG', 'OPT', 'ROOT', 'THING', 'OPTION', 'ARG', 'NAME', 'VALUE', 'Y', 'Z', 'A', 'B']
@@ -81,6 +81,12 @@ def variant(stmts, r):
 def run(ctx, res):
     with build.Lock():
         binary = build.complgen()
+        # the end-to-end theorems (the whole model pipeline ignores layout and statement order) live in Props/C14b.v
+        extra = coqcheck.check_property('C14b')
+    if not extra['ok']:
+        res.violations.append(report.Violation('proof obligations of C14b (pipeline ignores spans / statement order) no longer check',
+                                               dict(kind='proof-obligation', errors=extra['errors'][:5]), found_input=False))
+    res.extra['theorems_C14b'] = extra['theorems']
     r = ctx['rng']
     quick = ctx['tier'] == 'quick'
     n, k = (40, 3) if quick else (2500, 8)
